@@ -326,6 +326,7 @@ impl Runner {
             "fsck" => self.emit_fsck(),
             "probe_write" => self.do_probe_write(st),
             "apath_table" => self.do_apath_table(st),
+            "damage_sweep" => self.do_damage_sweep(st),
             "walk" => self.do_walk(st),
             other => panic!("unknown step op {other}"),
         }
@@ -800,8 +801,82 @@ impl Runner {
             }
             other => panic!("damage how {other}"),
         }
-        self.log.emit(json!({"ev": "damage", "key": decode::key_of(&path), "how": how}));
+        self.log.emit(json!({"ev": "damage", "key": decode::key_of(&path), "how": how, "path": path,
+                             "pos": st.get("pos").and_then(|x| x.as_u64()).unwrap_or(0), "seed": st.get("seed").and_then(|x| x.as_u64()).unwrap_or(0)}));
         self.emit_fsck();
+    }
+
+    /// Every archive file x every kind of damage (optionally sampled), each followed by `then`.
+    fn do_damage_sweep(&mut self, st: &Value) {
+        let hows = {
+            let h = str_list(st.get("hows"));
+            if h.is_empty() { vec!["delete".to_string(), "trunc0".into(), "half".into(), "garbage".into()] } else { h }
+        };
+        let nflips = st.get("bitflips").and_then(|x| x.as_u64()).unwrap_or(0);
+        let sample = st.get("sample").and_then(|x| x.as_u64()).unwrap_or(0) as usize;
+        let seed = st.get("seed").and_then(|x| x.as_u64()).unwrap_or(1);
+        let with_header = st.get("with_header").and_then(|x| x.as_bool()).unwrap_or(false);
+        let with_tails = st.get("with_tails").and_then(|x| x.as_bool()).unwrap_or(true);
+        let then: Vec<Value> = st.get("then").and_then(|x| x.as_array()).cloned().unwrap_or_default();
+        // all files of the archive
+        fn walk(dir: &Path, rel: &str, out: &mut Vec<(String, u64)>) {
+            let mut names: Vec<_> = fs::read_dir(dir).map(|rd| rd.flatten().collect::<Vec<_>>()).unwrap_or_default();
+            names.sort_by_key(|e| e.file_name());
+            for e in names {
+                let name = e.file_name().to_string_lossy().to_string();
+                let r = if rel.is_empty() { name.clone() } else { format!("{rel}/{name}") };
+                if e.file_type().map(|t| t.is_dir()).unwrap_or(false) {
+                    walk(&e.path(), &r, out);
+                } else {
+                    out.push((r, e.metadata().map(|m| m.len()).unwrap_or(0)));
+                }
+            }
+        }
+        let mut files = Vec::new();
+        walk(&self.arch, "", &mut files);
+        let mut cands: Vec<Value> = Vec::new();
+        let mut x = seed.wrapping_mul(0x9E3779B97F4A7C15) | 1;
+        let mut rnd = move || {
+            x ^= x << 13;
+            x ^= x >> 7;
+            x ^= x << 17;
+            x
+        };
+        for (f, len) in &files {
+            if f == "CONSERVE" && !with_header {
+                continue;
+            }
+            if f.ends_with("BANDTAIL") && !with_tails {
+                continue;
+            }
+            for h in &hows {
+                if (h == "half" || h == "trunc0") && *len == 0 {
+                    continue;
+                }
+                cands.push(json!({"op": "damage", "path": f, "how": h, "seed": rnd() % 1000}));
+            }
+            for _ in 0..nflips {
+                if *len > 0 {
+                    cands.push(json!({"op": "damage", "path": f, "how": "bitflip", "pos": rnd() % (len * 8)}));
+                }
+            }
+        }
+        if sample > 0 && cands.len() > sample {
+            let mut picked = Vec::new();
+            for _ in 0..sample {
+                let i = (rnd() % cands.len() as u64) as usize;
+                picked.push(cands.swap_remove(i));
+            }
+            cands = picked;
+        }
+        self.do_save();
+        self.log.emit(json!({"ev": "sweep", "mode": "damage", "nops": files.len(), "ninj": cands.len()}));
+        for c in cands {
+            self.do_damage(&c);
+            self.run_steps(&then);
+            self.do_reset();
+        }
+        self.do_unsave();
     }
 
     /// Enumerate injection positions of one operation: run it uninterrupted from a saved state,
